@@ -5,17 +5,21 @@ from scipy import integrate, stats
 
 import core
 import oracle
+import srctie
 
 REQUIRED_THEOREMS = [
     'C04_gauss_pointwise_sum', 'C04_mult_pointwise_sum', 'C04_cm_pointwise_sum',
     'C04_ln_pointwise_sum', 'C04_gauss_is_logpdf', 'C04_cm_is_logpdf', 'C04_mult_is_logpdf',
     'C04_ln_is_logpdf', 'C04_gauss_normalised', 'C04_ln_normalised', 'C04_gauss_grad',
     'C04_cm_grad', 'C04_mult_grad', 'C04_ln_grad', 'C04_gauss_guard', 'C04_ln_guard',
-    'C04_cm_guard', 'C04_mult_guard', 'C04_ln_mean']
+    'C04_cm_guard', 'C04_mult_guard', 'C04_ln_mean'] + sorted(set(srctie.theorem_of(k) for k in srctie.all_kernels()))
 RULE = ('random (error model, n in 1..12, sensitivity width 0..5, parameters inside the support and '
         'on every guard boundary, non-constant outputs/observations); a case is non-trivial when '
         'n >= 2 with non-constant outputs; distinct = distinct (model, n, width, guard class)')
-ASSUMPTIONS = ['model outputs and their sensitivities are inputs (the ODE solver is not involved)',
+ASSUMPTIONS = ['the closed-form kernels are additionally tied to the source by harness/srctie.py: traced from the '
+               'public methods on every run, proved equal to the Lean model (Tie_* in ChiProofs/Tie/C04.lean); '
+               'evidence key source_tie; a tie that is not established is not a verdict, it steers the search',
+               'model outputs and their sensitivities are inputs (the ODE solver is not involved)',
                'normalisation on chi is checked by quadrature only as a failing-input search; the '
                'claim is the Lean theorem']
 
@@ -296,6 +300,12 @@ def run(ctx):
     for m, sig, yb, ob in corpus:
         S = np.arange(len(yb) * 2, dtype=float).reshape(len(yb), 2) / 3 - 0.5
         run_case(ctx, chi, m, np.array(sig), np.array(yb), np.array(ob), S, 'corpus')
+    # the source-derived tie: formulas traced from the current source vs the generated Lean definitions; guards
+    # outside the support guards come back as concrete cases on both sides of each of them
+    tie = srctie.check(ctx, chi)
+    for m, sig, yb, ob, S, label in tie['hints']:
+        ctx.guard(run_case, ctx, chi, m, np.array(sig, float), np.array(yb, float), np.array(ob, float),
+                  np.array(S, float), label)
     for i in range(n_cases):
         rng = ctx.sub_rng(i)
         ctx.guard(run_case, ctx, chi, *gen_case(rng, KINDS))
